@@ -24,7 +24,7 @@ Lemma convert_int_flt s v t hd c w ret : convert_int s v t hd = Done (StFlt c w)
 Proof.
   destruct s, t; cbn [convert_int convert_int8 convert_uint8 convert_int16 convert_uint16 convert_int32
                       convert_uint32 convert_int64 convert_uint64 map_long];
-    unfold chk, char_case, vec_case, st;
+    unfold chk, char_case, vec_case, st; cbn [is_flt];
     repeat match goal with
     | |- context [if ?b then _ else _] => destruct b
     | |- context [match isgraph_c ?x with _ => _ end] => destruct (isgraph_c x) as [[]|]
@@ -41,6 +41,47 @@ Proof.
   rewrite T. cbn [readback negb].
   assert (cty_eqb c0 c0 = true) as -> by (destruct c0; reflexivity).
   intros H; inversion H; subst. auto.
+Qed.
+
+(* the dispatch layers hand the same thing on *)
+Lemma observe_flt t stv r c w ret : observe t true (Done stv r) = OFlt c w ret ->
+  stv = StFlt c w /\ tgt_cty t = Some c /\ ret = r.
+Proof.
+  unfold observe. destruct stv as [c0 w0|c0 w0|l| |]; try discriminate;
+    destruct (tgt_cty t) as [tc|]; cbn [readback negb]; try discriminate;
+    repeat match goal with |- context [if ?b then _ else _] => destruct b eqn:? end; try discriminate.
+  intros H; inversion H; subst. destruct tc, c; try discriminate; auto.
+Qed.
+
+Lemma value_convert_flt sk v tk c w r : value_convert sk v tk true = Done (StFlt c w) r ->
+  w = v /\ tgt_cty (tty_of_code tk) = Some c /\ is_flt c = true.
+Proof.
+  unfold value_convert. destruct (tk =? 0); [discriminate|].
+  set (dflt := if sk =? tk then _ else _).
+  assert (DF : dflt = Done (StFlt c w) r -> False).
+  { unfold dflt. repeat match goal with
+      | |- context [if ?b then _ else _] => destruct b
+      | |- context [match src_cty ?x with _ => _ end] => destruct (src_cty x)
+      end; discriminate. }
+  destruct (data_converter sk) as [s| | | | |]; try (intros H; destruct (DF H)).
+  destruct (convert_int s v (tty_of_code tk) true) as [e|stv r0|] eqn:CI; try (intros H; destruct (DF H)); try discriminate.
+  intros H. inversion H; subst stv.
+  destruct (convert_int_flt s v (tty_of_code tk) true c w r0 CI) as (-> & T & F & _). auto.
+Qed.
+
+Lemma vconv_flt_inv sk v tk c w r : vconv sk v tk true = OFlt c w r ->
+  w = v /\ tgt_cty (tty_of_code tk) = Some c /\ is_flt c = true.
+Proof.
+  unfold vconv. destruct (value_convert sk v tk true) as [e|stv r0|] eqn:VC; try discriminate.
+  intros H. apply observe_flt in H as (-> & _ & _). exact (value_convert_flt sk v tk c w r0 VC).
+Qed.
+
+Lemma iconv_flt_inv sk v tk c w r : iconv sk v tk true = OFlt c w r ->
+  w = v /\ tgt_cty (tty_of_code tk) = Some c /\ is_flt c = true.
+Proof.
+  unfold iconv, iterator_consume. destruct (tgt_cty (tty_of_code tk)) eqn:T; [|discriminate].
+  destruct (value_convert sk v tk true) as [e|stv r0|] eqn:VC; try discriminate.
+  intros H. apply observe_flt in H as (-> & _ & _). rewrite <- T. exact (value_convert_flt sk v tk c w r0 VC).
 Qed.
 
 (* ------------------------------------------------------------------ round_int is IEEE rounding *)
@@ -121,12 +162,13 @@ Proof.
   assert (SG : (cond_Zopp neg (m * 2 ^ k) <? 0) = neg).
   { destruct neg; cbn [cond_Zopp]; [apply Z.ltb_lt|apply Z.ltb_ge]; lia. }
   rewrite SG.
-  destruct c; try discriminate F; cbn [fprec f_emax f_elsb];
-    (destruct (Z.ltb_spec (Z.log2 m + k) (1 - 127)) || destruct (Z.ltb_spec (Z.log2 m + k) (1 - 1023))
-     || destruct (Z.ltb_spec (Z.log2 m + k) (1 - 16383))); try lia; f_equal.
-  - rewrite (SH 23). replace (24 - 1 - Z.log2 m) with (23 - Z.log2 m) by lia. destruct neg; evpow; ring.
-  - rewrite (SH 52). replace (53 - 1 - Z.log2 m) with (52 - Z.log2 m) by lia. destruct neg; evpow; ring.
-  - rewrite (SH 63). replace (64 - 1 - Z.log2 m) with (63 - Z.log2 m) by lia. destruct neg; evpow; ring.
+  destruct c; try discriminate F; cbn [fprec f_emax f_elsb].
+  - destruct (Z.ltb_spec (Z.log2 m + k) (1 - 127)); [lia|]. f_equal.
+    rewrite (SH 23). replace (24 - 1 - Z.log2 m) with (23 - Z.log2 m) by lia. destruct neg; evpow; ring.
+  - destruct (Z.ltb_spec (Z.log2 m + k) (1 - 1023)); [lia|]. f_equal.
+    rewrite (SH 52). replace (53 - 1 - Z.log2 m) with (52 - Z.log2 m) by lia. destruct neg; evpow; ring.
+  - destruct (Z.ltb_spec (Z.log2 m + k) (1 - 16383)); [lia|]. f_equal.
+    rewrite (SH 63). replace (64 - 1 - Z.log2 m) with (63 - Z.log2 m) by lia. destruct neg; evpow; ring.
 Qed.
 
 (* integer source of at most 64 bits: the destination's bit pattern decodes, as the target
@@ -149,12 +191,13 @@ Proof.
     assert (AB : Z.abs (cond_Zopp (v <? 0) (m' * 2 ^ e')) = m' * 2 ^ e') by (destruct (v <? 0); cbn [cond_Zopp]; nia).
     rewrite AB in FIN.
     assert (LG : Z.log2 m' + e' <= 64).
-    { rewrite <- (Z.log2_mul_pow2 m' e') by lia. rewrite Z.add_comm in *.
-      change 64 with (Z.log2 (2 ^ 64)). apply Z.log2_le_mono. lia. }
-    rewrite <- (flt_bits_fencode c (v <? 0) m' e' F ltac:(lia) E).
+    { assert (LM : Z.log2 (m' * 2 ^ e') = Z.log2 m' + e') by (rewrite Z.log2_mul_pow2 by lia; lia).
+      rewrite <- LM. change 64 with (Z.log2 (2 ^ 64)). apply Z.log2_le_mono. lia. }
+    pose proof (flt_bits_fencode c (v <? 0) m' e' F ltac:(lia) E) as FB.
     destruct (fdecode_fencode c (v <? 0) m' e' F ltac:(lia) ltac:(pose proof (f_elsb_neg c); lia)
                 ltac:(intros _; destruct c; try discriminate F; cbn [f_emax]; lia))
       as (b & m2 & e2 & EN & DE & _ & SD).
-    exists (v <? 0), m2, e2. rewrite EN. split; [exact DE|].
+    rewrite FB in EN. inversion EN; subst b.
+    exists (v <? 0), m2, e2. split; [exact DE|].
     rewrite (same_dyadic_R _ m2 e2 m' e' SD). exact V.
 Qed.
